@@ -40,10 +40,26 @@ PLACES = ["first", "middle", "last", "nested", "array", "enum", "spread"]
 VAR_PLACES = ["top", "nested", "in_array"]
 
 
+def enum_of_width(draw, name: str, w: int) -> M.Enum:
+    """An enum whose wire width is exactly w bits, with every shape of maximum: all ones, the exact power of two
+    2^(w-1) (the smallest maximum that needs w bits: width formulas based on log2/floats or on the number of
+    enumerators get it wrong), something in between; with a zero enumerator or as the only enumerator ({X = 0} is
+    one bit wide)."""
+    lo = (1 << (w - 1)) if w > 1 else 0
+    hi = (1 << w) - 1
+    top = draw(st.sampled_from([hi, lo, lo, lo + 1 if lo + 1 <= hi else hi]) | st.integers(lo, hi))
+    if draw(st.integers(0, 2)) == 0 or top == 0:
+        return M.Enum(name, [("Only", top)])
+    items = [("Lo", 0), ("Hi", top)]
+    if draw(st.booleans()):
+        items.reverse()
+    return M.Enum(name, items)
+
+
 @st.composite
 def case(draw):
-    names = draw(S.unique_names(CS.can_type, 4, 4))
-    msg, helper, enum_name, other = names
+    names = draw(S.unique_names(CS.can_type, 5, 5))
+    msg, helper, enum_name, other, small_enum = names
     kind = draw(st.sampled_from(["over", "over", "over", "variable", "variable", "fit", "fit", "collide"]))
     decls: List[M.Decl] = []
     fnames = draw(S.unique_names(CS.can_field, 5, 5))
@@ -94,7 +110,7 @@ def case(draw):
         def bulk_type(w: int) -> M.Type:
             nonlocal place
             if place == "enum" and w <= 63:
-                decls.append(M.Enum(enum_name, [("Lo", 0), ("Hi", (1 << w) - 1)]))
+                decls.append(enum_of_width(draw, enum_name, w))
                 return M.EnumRef(enum_name)
             if place == "nested":
                 parts = []
@@ -120,8 +136,16 @@ def case(draw):
         order = {"first": 0, "last": len(fills), "middle": len(fills) // 2}.get(place, draw(st.integers(0, len(fills))))
         widths: List[Any] = list(fills)
         widths.insert(order, bt)
+        small_done = False
         for i, w in enumerate(widths):
-            t = w if not isinstance(w, int) else (M.U(w) if draw(st.booleans()) else M.I(w))
+            if isinstance(w, int) and not small_done and draw(st.integers(0, 3)) == 0:
+                # a filler that is a small enum (incl. the one-bit enum whose only enumerator is 0)
+                decls.append(enum_of_width(draw, small_enum, w))
+                t = M.EnumRef(small_enum)
+                small_done = True
+                info["small_enum"] = True
+            else:
+                t = w if not isinstance(w, int) else (M.U(w) if draw(st.booleans()) else M.I(w))
             fields.append(M.Field(fnames[i], i, t))
         decls.append(M.Struct(msg, fields))
     else:
@@ -312,6 +336,8 @@ def run_shard(ctx: Ctx) -> None:
             cl += ["fits", "place_" + info["place"]]
         if info.get("duplicate_field_id"):
             cl.append("duplicate_field_id")
+        if info.get("small_enum"):
+            cl.append("small_enum_filler")
         rec.cls(*cl)
         text = printer.to_text(s)
         if size is None or size > 64:
